@@ -192,8 +192,13 @@ def specFocus (before after : ImplObs) (win : Id) : String :=
   | some evs =>
     let outs := evs.filter (·.type = .focusOut)
     let ins := evs.filter (·.type = .focusIn)
+    -- "told" is truthful: a window told OUT about itself is not focused afterwards, the gainer is
+    let focusedAfter (i : Id) : Bool := match after.tree.wins[i]? with | some w => w.isFocused | none => false
+    let staleOut := outs.find? fun e => e.target = e.win && e.target ≠ win && focusedAfter e.target
     if evs ≠ outs ++ ins then "an OUT event is delivered after an IN event"
     else if evs.getLast? ≠ some ⟨win, .focusIn, win⟩ then s!"window {win} is not told IN last"
+    else if !focusedAfter win then s!"window {win} was told IN but is not focused"
+    else if let some e := staleOut then s!"window {e.target} was told OUT but is still focused"
     else
       let hb := holder before.tree
       let ha := holder after.tree
